@@ -6,6 +6,7 @@ import ast
 from ..astq import Canon, Inliner, U, raised_class_name, statements, store_targets, unify
 from ..cfg import CFG, header_walk
 from ..index import AnalysisError, walk_no_nested
+from ._shared import refusal_side_conditions
 from ..selftest import V
 from ._shared import callgraph
 
@@ -73,6 +74,15 @@ def r1_validators(ctx):
             found = any(g_ in forms for g_ in guards)
         ctx.check(found, "C15.R1", f, f.node, f"refusal present: {what} ({meaning})", f"the refusal of {what} (a raise guarded by `{sorted(forms)[0] if forms else 'not torch.equal(M, M.triu(1))'}`) is gone or tests something else",
                   construct=f"refusal: {what}")
+        own = (lambda g_: "triu(1)" in g_ and g_.startswith("not torch.equal(")) if forms is None else (lambda g_: g_ in forms)
+        for r in c.nodes(lambda s: isinstance(s, ast.Raise)):
+            if not any(lab and own(cn.text(c.stmt[h].test)) for h, lab in c.if_guards(r)):
+                continue
+            side = refusal_side_conditions(c, r, own, cn.text)
+            for st_, g_, kind in side:
+                ctx.violation("C15.R1", f, st_, f"the refusal of {what} {kind} `{g_[:80]}`: some malformed definitions are accepted", construct=f"refusal unconditional: {what}")
+            if not side:
+                ctx.ok("C15.R1", f, c.stmt[r], f"refusal of {what}: no side condition", construct=f"refusal unconditional: {what}")
     f = ix.func(DAG, f"{CLS}.compute_topological_order_and_path_matrix", "C15.R1")
     L = Canon(f.node).lines(False, True)
     ok = unify(L, ["?sn += (?n,)", "if set(?sn) != set(?nodes)", "return (?sn, ?pm)"]) is not None
